@@ -5,7 +5,8 @@
    the DWARF 4 standard, section 7.7.1 / Figure 24, and the GNU extensions' descriptions -- NOT from the code):
      unsigned decimal constant, signed decimal constant, address (hex), a DIE, a block, a nested expression, or nothing;
    constants carry exactly the stored word (number for the first, number2 for the second operand).
-   DWARF 5 opcodes 0xa0..0xa9 are left unconstrained (the pinned code predates them and yields nothing). */
+   DWARF 5 opcodes 0xa0..0xa9, opcodes DWARF 4 does not assign and vendor opcodes other than the GNU ones listed are left
+   unconstrained (so that adding support for them is not an alarm); that leaves 0x03, 0x06, 0x08..0x9f and 0xf2..0xf7, 0xf9, 0xfa. */
 #include "lx_types.h"
 #include "lx_protos.h"
 int verif_raised;
@@ -28,6 +29,8 @@ static void spec(unsigned a, int *k1, int *k2)
   if (a == 0x9d) { *k1 = K_UDEC; *k2 = K_UDEC; return; }                                 /* bit_piece: size, offset */
   if (a == 0x9e) { *k1 = K_BLOCK; return; }                                              /* implicit_value */
   if (a >= 0xa0 && a <= 0xa9) { *k1 = K_ANY; *k2 = K_ANY; return; }                      /* DWARF 5: unconstrained here */
+  if (a < 0x03 || a == 0x04 || a == 0x05 || a == 0x07 || (a >= 0xaa && a <= 0xf1) || a == 0xf8 || a >= 0xfb)
+    { *k1 = K_ANY; *k2 = K_ANY; return; }        /* not assigned by DWARF 4 / vendor opcodes this table does not describe: unconstrained */
   if (a == 0xf2) { *k1 = K_DIE; *k2 = K_SDEC; return; }                                  /* GNU_implicit_pointer: DIE, offset */
   if (a == 0xf3) { *k1 = K_LOCEXPR; return; }                                            /* GNU_entry_value */
   if (a == 0xf4) { *k1 = K_DIE; *k2 = K_BLOCK; return; }                                 /* GNU_const_type: type DIE, value */
